@@ -16,8 +16,89 @@ enum Cli {
     Flag,
 }
 
+/// A global argument whose id the invoked subcommand declares again (with a default of its own):
+/// the strongest origin over the chain is what both levels report.
+fn global_redeclared(rng: &mut Rng, st: &mut Stats) {
+    use clap::{Arg, ArgAction, Command};
+    let var = "CLAPV_GLOBAL";
+    let env_set = rng.chance(2, 3);
+    if env_set {
+        std::env::set_var(var, "genv");
+    } else {
+        std::env::remove_var(var);
+    }
+    let child_default = rng.chance(3, 4);
+    let mut child = Arg::new("x").long("x").action(ArgAction::Set);
+    if child_default {
+        child = child.default_value("childdef");
+    }
+    let cmd = Command::new("prog")
+        .arg(Arg::new("x").long("x").global(true).env(var).action(ArgAction::Set))
+        .arg(Arg::new("other").long("other").action(ArgAction::SetTrue))
+        .subcommand(Command::new("sub").arg(child).arg(Arg::new("y").long("y").action(ArgAction::SetTrue)));
+    let (root_cli, child_cli) = match rng.below(4) {
+        0 => (true, false),
+        1 => (false, true),
+        _ => (false, false),
+    };
+    let mut argv: Vec<OsString> = vec!["prog".into()];
+    if rng.coin() {
+        argv.push("--other".into());
+    }
+    if root_cli {
+        argv.extend(["--x".into(), "rootcli".into()]);
+    }
+    argv.push("sub".into());
+    if child_cli {
+        argv.extend(["--x".into(), "childcli".into()]);
+    }
+    if rng.coin() {
+        argv.push("--y".into());
+    }
+    st.eval();
+    let want: Option<(Src, &str)> = if root_cli {
+        Some((Src::Cli, "rootcli"))
+    } else if child_cli {
+        Some((Src::Cli, "childcli"))
+    } else if env_set {
+        Some((Src::Env, "genv"))
+    } else {
+        None // only defaults left: which level's default shows where is not fixed by the property
+    };
+    let ctx = || format!("argv={} env {}={} child default={}", show_argv(&argv), var, if env_set { "genv" } else { "<unset>" }, child_default);
+    match catch(|| cmd.clone().try_get_matches_from(argv.clone())) {
+        Err(p) => st.violation(format!("panic:parse@{}", p.loc), format!("{} | {}", p.msg, ctx())),
+        Ok(Err(e)) => st.violation(format!("c06:valid-line-rejected:{:?}", e.kind()), ctx()),
+        Ok(Ok(m)) => {
+            if let Some((src, val)) = want {
+                st.count(&format!("lattice.global-redeclared.{:?}", src));
+                let sm = m.subcommand_matches("sub");
+                for (lvl, lm) in [("prog", Some(&m)), ("sub", sm)] {
+                    let Some(lm) = lm else {
+                        st.violation("c06:global-redeclared", format!("no `sub` matches | {}", ctx()));
+                        break;
+                    };
+                    let got_src = crate::model::src_of(lm.value_source("x"));
+                    let got_val = lm.try_get_one::<String>("x").ok().flatten().cloned();
+                    if got_src != Some(src) || got_val.as_deref() != Some(val) {
+                        st.violation(
+                            "c06:global-redeclared",
+                            format!("level {}: x = {:?} from {:?}, expected {:?} from {:?} | {}", lvl, got_val, got_src, val, src, ctx()),
+                        );
+                        break;
+                    }
+                }
+            }
+        }
+    }
+    std::env::remove_var(var);
+}
+
 pub fn case(seed: u64, st: &mut Stats) {
     let mut rng = Rng::new(seed);
+    if rng.chance(1, 6) {
+        global_redeclared(&mut rng, st);
+    }
     let n = rng.range(2, 5);
     let mut c = CmdSpec { name: "prog".into(), ..Default::default() };
     let longs = ["alpha", "beta", "gamma", "delta", "omega"];
